@@ -35,6 +35,7 @@ import (
 	"github.com/sirupsen/logrus"
 
 	"verifh/enum"
+	"verifh/vsync"
 )
 
 // Counters for vacuity accounting (whole process).
@@ -51,6 +52,11 @@ type LinkSpec struct {
 	Name   string
 	UUID   uint64
 	Remote string // "A", "B", "self"
+	// Gated: the link's first GetLocalPeer call (made by the controller while
+	// it applies the link's established event, under its lock) signals
+	// InApply and blocks until Gate is closed (controlled-scheduler scenarios
+	// only): further events can then be reported while an event is applied.
+	Gated bool
 }
 
 // LookupSpec describes one EstablishLinkWithPeer observer.
@@ -102,12 +108,27 @@ type FakeLink struct {
 	closeCh  chan struct{}
 	streams  chan *fakeStream
 	lostSent bool
+
+	Gate, InApply chan struct{}
+	gatePassed    bool
 }
 
 func (l *FakeLink) GetUUID() uint64                { return l.Spec.UUID }
 func (l *FakeLink) GetTransportUUID() uint64       { return 7 }
 func (l *FakeLink) GetRemoteTransportUUID() uint64 { return 8 }
-func (l *FakeLink) GetLocalPeer() peer.ID          { return l.local }
+func (l *FakeLink) GetLocalPeer() peer.ID {
+	if l.Gate != nil {
+		l.mu.Lock()
+		first := !l.gatePassed
+		l.gatePassed = true
+		l.mu.Unlock()
+		if first {
+			close(vsync.C(l.InApply))
+			<-vsync.R(l.Gate)
+		}
+	}
+	return l.local
+}
 func (l *FakeLink) GetRemotePeer() peer.ID         { return l.remote }
 func (l *FakeLink) OpenStream(stream.OpenOpts) (stream.Stream, error) {
 	return nil, errors.New("fake link: no outgoing streams")
@@ -365,6 +386,9 @@ func New(cfg *Config) *Sys {
 	}
 	for _, ls := range cfg.Links {
 		l := &FakeLink{Spec: ls, local: s.peers["self"], remote: s.peers[ls.Remote], sys: s, closeCh: make(chan struct{}), streams: make(chan *fakeStream, 4)}
+		if ls.Gated {
+			l.Gate, l.InApply = make(chan struct{}), make(chan struct{})
+		}
 		s.links = append(s.links, l)
 		s.byName[ls.Name] = l
 		s.state[ls.Name] = stNew
